@@ -289,6 +289,7 @@ func c20CheckPkgOpts(p c20Pkg, o c20Opts) *c20Result {
 			allRep[k] = true
 		}
 		one := func(k string, isRep bool) {
+			c20Beat()
 			rm, rp := map[string]bool{}, map[string]bool{}
 			if isRep {
 				rp[k] = true
@@ -360,6 +361,7 @@ func c20TextDiff(a, b c20Pkg) string {
 // given class. Bounded by maxEval evaluations of the pipeline.
 func c20Shrink(p c20Pkg, class string, maxEval int) c20Pkg {
 	failsWith := func(q c20Pkg) bool {
+		c20Beat()
 		r := c20CheckPkgOpts(q, c20Opts{perDecl: class == "removed-alone-changes" || class == "readded-alone-changes" || class == "removed-alone-unloadable"})
 		for _, f := range r.fails {
 			if f.class == class {
